@@ -1848,6 +1848,9 @@ def _str_format(interp, template, args, kwargs):
 
 METHOD_MODELS[(str, "format")] = _str_format
 
+# slice(a, b[, c]) with symbolic bounds: the same object an index expression `x[a:b:c]` evaluates to
+CLASS_MODELS[slice] = lambda interp, args, kwargs: slice(*[interp.resolve(a) for a in args])
+
 
 # ================================================================================================
 # small linear algebra (closed forms; trusted axioms)
